@@ -60,6 +60,6 @@ def run(pid, tier):
     out.sample(dict(transition=cases[2 * len(cases) // 3]))
     out.assumptions = ["result of an operation depends only on the operands' numbers, labels, label list and shape "
                        "(the projection compared after every transition)",
-                       "named limitation ScalarTimesRatioSeriesNotImplemented and the two-ratio suffix case are outside the domain",
+                       "named limitation ScalarTimesRatioSeriesNotImplemented: the code may refuse a single non-ratio quantity times a series of ratios, or return the documented product; the two-ratio different-suffix product is outside the domain",
                        "numbers are small exact rationals; float comparison at 1e-9"]
     return out.finish()
